@@ -937,6 +937,54 @@ def oracle_trace(case, obs):
 
 
 # ------------------------------------------------------------------------------------------------ main
+def prefix_probe(chk, stats):
+    """The series file may be extended in place only if ALL rows on disk are the first rows being saved: folders holding a
+    run that agrees with the new one on some rows (the last, the first, all but one) and differs on another."""
+    from black_it.loss_functions.minkowski import MinkowskiLoss
+    from black_it.samplers.random_uniform import RandomUniformSampler
+    from black_it.schedulers.round_robin import RoundRobinScheduler
+    from black_it.utils.json_pandas_checkpointing import load_calibrator_state, save_calibrator_state
+
+    g = np.random.default_rng(int(chk.rng.below(2**31)))     # data only
+    root = SCRATCH / f"{os.getpid()}" / "c04_prefix"
+    n = 0
+    sched, loss = RoundRobinScheduler([RandomUniformSampler(batch_size=2)]), MinkowskiLoss()
+    gstate = np.random.default_rng(0).bit_generator.state
+
+    def save(folder, series):
+        k = len(series)
+        quiet(save_calibrator_state, folder, np.array([[0.0], [1.0]]), np.array([0.01]), np.zeros((3, 1)), series.shape[1], 3, 1, None, False,
+              None, 0, gstate, "m", sched, loss, 1, k, 1, g.random((k, 1)), g.random(k), series, np.zeros(k, dtype=int), np.zeros(k, dtype=int))
+
+    for r in (1, 2, 3, 5):
+        for extra in (0, 1, 3):
+            for differ in sorted({0, r // 2, r - 1}):
+                if r == 1 and extra == 0:
+                    continue
+                if root.exists():
+                    shutil.rmtree(root)
+                old = g.random((r, 2, 3, 1))
+                new = np.concatenate([old.copy(), g.random((extra, 2, 3, 1))])
+                new[differ] += 1.0                      # one row of the new run differs from the row on disk
+                save(root, old)
+                save(root, new)
+                n += 1
+                stats["prefix-probe"] += 1
+                try:
+                    got = load_calibrator_state(root, 1)[19]
+                except Exception as e:  # noqa: BLE001
+                    got = None
+                    err = f"{type(e).__name__}: {e}"
+                if got is None or got.tobytes() != new.tobytes() or got.shape != new.shape:
+                    chk.violation({"kind": "stale_series", "variant": "agrees-on-some-rows"},
+                                  {"failed": "oracle:series", "detail": f"folder held {r} rows of another run equal to the new run's except row "
+                                   f"{differ}; after saving {len(new)} rows the restored series " +
+                                   ("raised " + err if got is None else "are not the saved ones"),
+                                   "case": {"prefix_probe": {"r": r, "extra": extra, "differ": differ}}})
+    shutil.rmtree(root, ignore_errors=True)
+    return n
+
+
 def plan(chk):
     rng = chk.rng
     quick = chk.tier == "quick"
@@ -964,6 +1012,7 @@ def run(chk, replay=None):
     chk.proof_gate()
     t0 = time.time()
     stats = Counter()
+    n_probe = prefix_probe(chk, stats) if not replay else 0
     quick = chk.tier == "quick"
     if replay:
         obj = json.loads(open(replay).read())
